@@ -40,6 +40,11 @@ impl SegmentLogWriter {
     pub uninterp spec fn file(&self) -> Seq<BatchV>;
     // SegmentLogWriter::save_batches — Ok: exactly this batch appended (Wait: written; NoWait: queued to the
     // persister task, assumed drained in order — A-io); Err: nothing appended.
+    // The Ok clause (Wait) is PROVED in unit log_writer on the real `save_batches` / `write_batch` / `write_all_vectored`, relative to
+    // the true contract of ONE file write (a write may take only a prefix): [C04.publish] (file grew by exactly header ++ bytes, published
+    // size and returned size grew by exactly that), harness [C04.publish.stub] + lemma [C04.publish.seq] (the same statement in the
+    // record-level shape used here). Err there is byte-level: old content ++ a PREFIX of this record, published size unchanged
+    // ([C04.publish.err]) — "nothing appended" here means: no complete record. NoWait: [C04.nowait.queue], persister [C04.persist.*].
     #[verifier::external_body]
     pub fn save_batches(&mut self, batch: RetainedMessageBatch, confirmation: Confirmation) -> (r: Result<u64, IggyError>)
         ensures
